@@ -17,6 +17,8 @@ Skeleton terms (tuples; `body` = tuple of terms; v a pool name):
                                                    end of the enclosing function/module body (after every let has been left)
            ("fnp", v, e, body)                     ((fn [v] ...) E)
            ("lfor", v, body)                       (lfor v [K1 K2] (do ...))
+           ("lforr", v, body)                      (lfor v [(log i v) K2] (do ...)): the iterable reads the name the clause
+                                                   binds, i.e. its OUTER meaning (the clause's variable does not exist yet)
            ("with", v, body)                       (with [v (cm K)] ...)
            ("exc", v, body)                        (try (raise (ValueError K)) (except [v ValueError] ...))
            ("match", v, body)                      (match K v (do ...))
@@ -57,7 +59,7 @@ import itertools
 UNBOUND = "U"          # what a guarded read logs for an unbound name
 
 LEAF_OPS = ("setv", "aug", "setx", "forv", "defn", "defclass", "imp")
-BODY_OPS = ("let", "clo", "fnp", "lfor", "with", "exc", "match", "letm")
+BODY_OPS = ("let", "clo", "fnp", "lfor", "lforr", "with", "exc", "match", "letm")
 DEFINERS = ("defn", "defclass", "imp")
 
 
@@ -102,6 +104,9 @@ def alphabet(pool, full):
             continue
         for v in pool:
             heads.append((op, v))
+    if full >= 1:
+        for v in pool:
+            heads.append(("lforr", v))
     return tuple(leaves), tuple(heads)
 
 
@@ -210,7 +215,7 @@ def nontrivial(forest, under=frozenset(), under_fn=False):
         v = t[1]
         if v in under:
             return True
-        if op in ("let", "lfor", "exc"):
+        if op in ("let", "lfor", "lforr", "exc"):
             if nontrivial(t[-1], under | {v}, under_fn):
                 return True
         elif op in BODY_OPS:
@@ -298,6 +303,11 @@ class _Exp:
                 b, p = self.body(t[2], False)
                 pending += p
                 out.append(("lfor", t[1], k1, k2, b))
+            elif op == "lforr":
+                e, k2 = self.E(t[1], "same"), 100 + self.site()
+                b, p = self.body(t[2], False)
+                pending += p
+                out.append(("lforr", t[1], e, k2, b))
             elif op in ("with", "exc", "match"):
                 k = 100 + self.site()
                 b, p = self.body(t[2], False)
@@ -346,7 +356,7 @@ def pyassigned(stmts, shadow=frozenset(), acc=None):
             pyassigned(s[2], shadow | {n for n, _ in s[1]}, acc)
         elif op == "clo":
             acc.add(s[2])
-        elif op == "lfor":
+        elif op in ("lfor", "lforr"):
             pyassigned(s[4], shadow | {s[1]}, acc)
         elif op == "exc":
             pyassigned(s[3], shadow | {s[1]}, acc)
@@ -382,7 +392,7 @@ def static_unspecified(stmts, comp=frozenset(), exc=frozenset(), lets=(), in_com
         elif op == "letm":
             names = tuple(n for n, _ in s[1])
             r = static_unspecified(s[2], comp - set(names), exc - set(names), lets + names, in_comp)
-        elif op == "lfor":
+        elif op in ("lfor", "lforr"):
             r = static_unspecified(s[4], comp | {s[1]}, exc - {s[1]}, lets, True)
         elif op == "exc":
             r = static_unspecified(s[3], comp - {s[1]}, exc | {s[1]}, lets + (s[1],), in_comp)
@@ -557,10 +567,12 @@ class Interp:
         elif op == "fnp":
             a = self.E(frame, lets, s[2])
             self.call(Closure((s[1],), s[3], frame, lets), (a,))
-        elif op == "lfor":
+        elif op in ("lfor", "lforr"):
+            # the iterable is evaluated before the clause's variable exists: a read in it has the outer meaning
+            first = self.E(frame, lets, s[2]) if op == "lforr" else s[2]
             c = Cell(None, "comp")
             l2 = {**lets, s[1]: c}
-            for it in (s[2], s[3]):
+            for it in (first, s[3]):
                 c.v = it
                 self.body(frame, l2, s[4])
         elif op in ("with", "match"):
@@ -662,6 +674,8 @@ def render_stmt(s, guard):
         return f"((fn [{s[1]}] {R(s[3])} None) {_E(s[2], guard)})"
     if op == "lfor":
         return f"(lfor {s[1]} [{s[2]} {s[3]}] (do {R(s[4])} None))"
+    if op == "lforr":
+        return f"(lfor {s[1]} [{_E(s[2], guard)} {s[3]}] (do {R(s[4])} None))"
     if op == "with":
         return f"(with [{s[1]} (cm {s[2]})] {R(s[3])})"
     if op == "exc":
